@@ -2,6 +2,8 @@
 //!   nfverif worker <PROP> --seed S --shard I --nshards N --cases K [--start A] [--only IDX]
 //!                         [--tier quick|thorough] [--progress FILE] [--transcript FILE]
 //!   nfverif replay <file.json>       re-execute the raw operations of a replay file
+//!   nfverif ircount <family>         run every doubling member of a family through `nfverif_measured` (for callgrind)
+//!   nfverif families | famops <family> <k>   list the doubling families / print one member as a replay object
 //!   nfverif selftest                 golden checks of the generators/encoders
 
 mod alloc;
@@ -34,6 +36,9 @@ fn main() {
     match args[1].as_str() {
         "worker" => worker::main(&args[2..]),
         "replay" => worker::replay(&args[2..]),
+        "ircount" => props::cost::ircount(&args[2..]),
+        "families" => props::cost::families_json(),
+        "famops" => props::cost::famops(&args[2..]),
         "selftest" => {
             let n = golden::selftest();
             println!("{{\"selftest\":\"ok\",\"checks\":{}}}", n);
